@@ -190,47 +190,38 @@ fn check_one(rep: &Report, ck: &str, c: &Case, params: &[Params]) -> CheckResult
     }
 
     // ---- negative (iv): transplant onto other commitments ------------------------------------------
-    let targets: Vec<(&str, Integer)> = vec![
-        ("commitment to b+1", commit(p, &(&b + 1u32).complete(), &mut st).value),
-        ("commitment to a far value", commit(p, &(&b + (Integer::from(1) << 300u32)), &mut st).value),
-        ("random group element", Integer::from(p.h.pow_mod_ref(&clmath::int_from_seed(&mut st, 900), &p.n).unwrap()) * &p.g % &p.n),
-        ("commitment to x with other randomness", commit(p, &x, &mut st).value),
-    ];
-    for (tn, e2) in targets {
-        let (e_prime2, e_a, e_b) = public_parts(p, &e2, &a, &b);
-        let ea2 = int_of(&pj["proof_of_tolerance"]["E_a_2"]).unwrap();
-        let eb2 = int_of(&pj["proof_of_tolerance"]["E_b_2"]).unwrap();
-        let ea1 = divm(&e_a, &ea2, &p.n);
-        let eb1 = divm(&e_b, &eb2, &p.n);
-        for overwrite_square_e in [false, true] {
-            let mut j = pj.clone();
-            set_leaf(&mut j, "/E", &e2);
-            set_leaf(&mut j, "/E_prime", &e_prime2);
-            set_leaf(&mut j, "/proof_of_tolerance/E_a_1", &ea1);
-            set_leaf(&mut j, "/proof_of_tolerance/E_b_1", &eb1);
-            if overwrite_square_e {
-                set_leaf(&mut j, "/proof_of_tolerance/proof_of_square_a/E", &ea1);
-                set_leaf(&mut j, "/proof_of_tolerance/proof_of_square_b/E", &eb1);
-            }
-            let Ok(tp) = serde_json::from_value::<Boudot2000RangeProof>(j) else { continue };
-            reject(
-                if overwrite_square_e { "transplant+square-E-overwritten" } else { "transplant" },
-                ver(&tp, &p.g, &p.h, &p.n, &a, &b),
-                format!("sub-proofs of an honest proof transplanted onto a {}", tn),
-            )?;
-        }
-    }
-    // self-check of the transplant arithmetic: transplanting onto the honest commitment itself must
-    // reproduce the honest proof (so that "rejected" is not an artefact of wrong public parts)
-    {
+    // self-check of the transplant arithmetic first: transplanting onto the honest commitment itself must
+    // reproduce the honest proof (so that "rejected" is not an artefact of wrong public parts).  If the tree
+    // under test derives T / aa / bb differently (a consistent change of prover and verifier), the family
+    // cannot be assembled for this case: it is skipped and counted, and a run without any transplant is
+    // reported as inconclusive by run().
+    let reproducible = {
         let (e_prime2, e_a, e_b) = public_parts(p, &com.value, &a, &b);
         let ea2 = int_of(&pj["proof_of_tolerance"]["E_a_2"]).unwrap();
         let eb2 = int_of(&pj["proof_of_tolerance"]["E_b_2"]).unwrap();
-        let ok = Some(e_prime2) == int_of(&pj["E_prime"]) && Some(divm(&e_a, &ea2, &p.n)) == int_of(&pj["proof_of_tolerance"]["E_a_1"]) && Some(divm(&e_b, &eb2, &p.n)) == int_of(&pj["proof_of_tolerance"]["E_b_1"]);
-        if !ok {
-            out("INCONCLUSIVE property=C16 the harness' recomputation of E_prime / E_a / E_b does not reproduce the honest proof");
-            std::process::exit(2);
+        Some(e_prime2) == int_of(&pj["E_prime"]) && Some(divm(&e_a, &ea2, &p.n)) == int_of(&pj["proof_of_tolerance"]["E_a_1"]) && Some(divm(&e_b, &eb2, &p.n)) == int_of(&pj["proof_of_tolerance"]["E_b_1"])
+    };
+    if reproducible {
+        let targets: Vec<(&str, Integer)> = vec![
+            ("commitment to b+1", commit(p, &(&b + 1u32).complete(), &mut st).value),
+            ("commitment to a far value", commit(p, &(&b + (Integer::from(1) << 300u32)), &mut st).value),
+            ("random group element", Integer::from(p.h.pow_mod_ref(&clmath::int_from_seed(&mut st, 900), &p.n).unwrap()) * &p.g % &p.n),
+            ("commitment to x with other randomness", commit(p, &x, &mut st).value),
+        ];
+        for (tn, e2) in targets {
+            for overwrite_square_e in [false, true] {
+                let j = transplant(p, &pj, &e2, &a, &b, overwrite_square_e);
+                let Ok(tp) = serde_json::from_value::<Boudot2000RangeProof>(j) else { continue };
+                reject(
+                    if overwrite_square_e { "transplant+square-E-overwritten" } else { "transplant" },
+                    ver(&tp, &p.g, &p.h, &p.n, &a, &b),
+                    format!("sub-proofs of an honest proof transplanted onto a {}", tn),
+                )?;
+            }
         }
+        rep.class("transplant-executed");
+    } else {
+        rep.class("transplant-skipped(public parts not reproducible)");
     }
 
     // ---- negative (iii): every integer leaf ----------------------------------------------------------
@@ -309,6 +300,10 @@ pub fn run(ctx: &Ctx, rep: &Report) -> Meta {
     par_items(ctx, rep, "boundary-grid", &grid, |c| check_one(rep, "boundary-grid", c, &params));
     if !rep.aborted() {
         rep.exhaustive("x position {a, a+1, mid, b-1, b, random} x width class {1, 2, 3, 2^k, 2^256-1, random} x a in {0, 2^257+1, random}".into());
+    }
+    if !rep.aborted() && rep.class_count("transplant-executed") == 0 {
+        out("INCONCLUSIVE property=C16 the harness' recomputation of E_prime / E_a / E_b never reproduced an honest proof: the transplant family could not be assembled");
+        std::process::exit(2);
     }
     let le = ctx.tier.pick(10usize, 0usize);
     run_cases(ctx, rep, "generated", ctx.tier.pick(200, 1500), 40, || strat(le), |c| check_one(rep, "generated", c, &params));
